@@ -10,7 +10,7 @@ from . import codec, msggen, proj
 
 # (name, MaxDepth, MaxKids, NAttr, NRule, NUnits, MaxValLen, MaxAny, Decor, EscStyles, AllowEmptyAny, LeafKinds)
 GEN_QUICK = [
-    ("leaves", 0, 2, 3, 2, 23, 1, 1, 0, 5, "FALSE", "KNoSub"),
+    ("leaves", 0, 2, 3, 2, 25, 1, 1, 0, 5, "FALSE", "KNoSub"),
     ("attrs", 0, 2, 12, 6, 1, 1, 1, 0, 1, "FALSE", "KAll"),
     ("substr", 0, 2, 1, 1, 6, 1, 2, 0, 1, "FALSE", "KEqSub"),
     ("values2", 0, 2, 1, 1, 16, 2, 1, 0, 1, "FALSE", "KEq"),
@@ -21,12 +21,12 @@ GEN_QUICK = [
 ]
 GEN_THOROUGH = GEN_QUICK + [
     ("values3", 0, 2, 1, 1, 16, 3, 1, 0, 1, "FALSE", "KEq"),
-    ("leaves-all-attrs", 0, 2, 12, 6, 23, 1, 1, 0, 5, "FALSE", "KNoSub"),
+    ("leaves-all-attrs", 0, 2, 12, 6, 25, 1, 1, 0, 5, "FALSE", "KNoSub"),
     ("substr-wide", 0, 2, 2, 1, 10, 1, 2, 0, 1, "FALSE", "KSub"),
     ("ext-wide", 0, 2, 4, 6, 6, 2, 1, 0, 1, "FALSE", "KExt"),
     ("shapes3", 3, 2, 1, 1, 1, 1, 1, 0, 1, "FALSE", "KEq"),
 ]
-SIM = ("sim", 5, 3, 12, 6, 23, 3, 2, 2, 5, "FALSE", "KAll")
+SIM = ("sim", 5, 3, 12, 6, 25, 3, 2, 2, 5, "FALSE", "KAll")
 INVS = ["ParseOfUnparse", "StrictWhenUndecorated", "NamesValid"]
 
 
@@ -430,6 +430,16 @@ def run_c15(tier: str, seed: int) -> int:
         for pair in ("  ", " \t", "\t ", "\r\n", "\x0b\x0c", "+1", "-1", "0x", "1_", " 1", "1 ", "\uff11\uff11", "\u0661\u0662", "a\u00df", "Ａ1", "4\u00b2"):
             for tmpl in ("(cn=\\{p}*smith)", "(cn=john*\\{p}*smith)", "(cn=x\\{p})", "(cn=\\{p})", "(cn:=\\{p}y)", "(cn>=a\\{p})", "(&(cn=*\\{p})(a=b))"):
                 texts.append(tmpl.format(p=pair))
+        # leading / trailing white space around a complete filter followed by junk (error spans are relative to what?)
+        for ws in (" ", "  ", "\t ", "   ", "\n", "\u00a0 "):
+            for body in ("(cn=a)b=2", "(cn=a))", "(cn=a)(", "(cn=a)x", "(&(a=b))zz", "(cn=a) (sn=b)"):
+                texts += [ws + body, ws + body + " ", body + ws, ws + ws + body + ws]
+        # an extensible match whose value is exactly "*" (not a presence test), and the other operators with "*"
+        for head in ("cn:dn", "cn:rule", ":rule", "cn:dn:rule", "cn", ":dn:1.2.3", "cn;x-1:dn"):
+            for val in ("*", "**", "*a", "a*", "\\2a"):
+                texts.append(f"({head}:={val})")
+        for op_ in (">=", "<=", "~="):
+            texts += [f"(cn{op_}*)", f"(cn{op_}a*b)"]
         # arbitrary text
         alphabet = "()&|!=*\\:; a1.\n\t\x00é\U0001f600𐂀\udfff~<>"
         for _ in range(2000 if tier == "quick" else 40000):
